@@ -8,7 +8,7 @@ R=$(cd "$1" && pwd); shift
 D=/tmp/vcopy-$(basename "$R")
 if [ ! -d "$D" ] || [ -n "$ALT_REFRESH" ]; then
   mkdir -p "$D"
-  rsync -a --delete --exclude .work --exclude .git --exclude evidence /verif/ "$D/"
+  rsync -a --delete --exclude .work --exclude .git --exclude evidence "${ALT_SRC:-/verif}/" "$D/"
   mkdir -p "$D/evidence"
   sed -i "s#=> /repo\$#=> $R#" "$D/harness/go.mod"
 fi
